@@ -59,6 +59,7 @@ type Result struct {
 	Reached        map[string]int
 	Violations     []Violation
 	ViolationCount int
+	ExampleQuery   string // one assertion query as sent to the solver (path condition + negated assertion)
 	Samples        []PathSample
 	Unsupported    []string
 	Incomplete     string // non-empty: exploration cut short (budget / deadline)
